@@ -13,7 +13,9 @@ def run_lemma(fns, variants, work):
 def spec(tier, seed):
     return {
         "instances": [],
-        "mir_vcs": [{"name": "dry_run guard lemma", "function": "drivers", "target": "bin", "run": run_lemma}],
+        "mir_vcs": [{"name": "dry_run guard lemma", "function": "drivers", "target": "bin", "run": run_lemma},
+                    {"name": "cmd_push: the result (exit status) is skipped == 0 on every path, dry run or not", "function": "cmd_push", "target": "bin",
+                     "run": lambda f, v, w: _mir.vc_applied_patches_recorded(f, v, w)}],
         "level": "other",
         "engine": "mirvc: bounded symbolic execution of the nightly MIR of the drivers; z3, cross-checked with cvc5",
         "functions": [n + " (MIR)" for n, _ in FUNCS] + ["call-graph closure of every repo function over the writing primitives"],
@@ -29,3 +31,8 @@ def spec(tier, seed):
                        "the same calls are reachable with dry_run == false (non-vacuity)",
         "rule": "one evaluation = one solver query; non-trivial = distinct writer call site decided",
     }
+
+
+def replay_candidate(v, work, log):
+    from .. import scenarios
+    return scenarios.replay_for("C10", v, work, log)
